@@ -38,6 +38,11 @@ DATASETS = {
                  ("beta", [("r", None), ("a", 0)]),
                  ("beta", [("r", None), ("a", 0)])],
 }
+# a store that cleaning has to touch: one trace references a missing parent
+DATASETS["dirty"] = [("alpha", [("r", None), ("a", 0)]),
+                     ("alpha", [("r", None), ("b", 0)]),
+                     ("alpha", [("x", "MISSING"), ("y", 0)]),
+                     ("beta", [("r", None), ("a", 0), ("b", 1)])]
 ACTIONS_PV = [(ni, ug, se) for ni in (False, True) for ug in (False, True)
               for se in (False, True)]
 
@@ -53,7 +58,8 @@ def spans_of_dataset(ds):
                 "start_timestamp": str(t + (k * 100 + i * 10) * 10 ** 6),
                 "end_timestamp": str(t + (k * 100 + 90 - i * 10) * 10 ** 6),
                 "application_name": f"app{k}",
-                "parent_event_id": None if par is None else f"t{k}s{par}"})
+                "parent_event_id": None if par is None else
+                (f"t{k}missing" if par == "MISSING" else f"t{k}s{par}")})
     return out
 
 
@@ -133,6 +139,10 @@ def shape_of(job):
             memo[i] = (typ[i], tuple(sorted(h(p) for p in prev[i])))
         return memo[i]
     return tuple(sorted(h(i) for i in typ))
+
+
+def is_broken(nodes):
+    return any(par == "MISSING" for _, par in nodes)
 
 
 def tree_shape(ds, job_id):
@@ -233,7 +243,9 @@ def judge(ds, obs, ref_full, ref_obs, command, ni, ug, se, from_empty):
                     got.setdefault(k, []).append(tree_shape(ds, j[0][2]))
             want = {}
             for k, (name, nodes) in enumerate(DATASETS[ds]):
-                want.setdefault(name, set()).add(tree_shape(ds, f"trace{k}"))
+                if not is_broken(nodes):
+                    want.setdefault(name, set()).add(
+                        tree_shape(ds, f"trace{k}"))
             if {k: sorted(v) for k, v in got.items()} != \
                     {k: sorted(v) for k, v in want.items()}:
                 return ["selected_shapes_differ",
@@ -252,7 +264,8 @@ def judge(ds, obs, ref_full, ref_obs, command, ni, ug, se, from_empty):
 def explore(tier, ctx, progress):
     pool.worker_setup()
     depth = 3 if tier == "quick" else 4
-    datasets = ["repeated"] if tier == "quick" else ["repeated", "distinct"]
+    datasets = ["repeated", "dirty"] if tier == "quick" else \
+        ["repeated", "dirty", "distinct"]
     commands = ["otel2pv"] if tier == "quick" else ["otel2pv", "otel2puml"]
     keep = impl_otel.scratch_dir()
     viol = []
